@@ -34,6 +34,7 @@ else:
     meta = json.load(open(os.path.join(src, f'meta_{k}.json')))
 prop = meta.get('property', '?')
 checks = [c for c in a.checks.split(',') if c] or [prop]
+ROOT = os.environ.get('PV_VERIF_ROOT', '/verif')     # a snapshot copy of /verif may run the checks (see tools/reeval.sh)
 W = tempfile.mkdtemp(prefix='pvw-')
 os.rmdir(W)
 out = {'source': src, 'k': k, 'property': prop, 'summary': meta.get('summary')}
@@ -63,7 +64,7 @@ try:
         out['demo_output_with_patch'] = r1.stdout.strip()[-300:]
         out['checks'] = {}
         for c in checks:
-            r = sh(f'cd /verif && PV_REPO={W} ./vcheck {c} --tier {a.tier}')
+            r = sh(f'cd {ROOT} && PV_REPO={W} ./vcheck {c} --tier {a.tier}')
             lines = [ln for ln in r.stdout.split('\n') if ln.startswith('VIOLATION') or ln.startswith('  class=') or ln.startswith('INCONCLUSIVE')]
             out['checks'][c] = {'rc': r.returncode, 'lines': [ln[:220] for ln in lines[:6]]}
 finally:
